@@ -95,10 +95,7 @@ Print Assumptions permutation_contract_implies_range.
 Theorem allgather_permutation_shape : forall n W, (1 <= W <= n)%nat ->
   length (ag_indices n W) = n /\
   forall j, (j < n)%nat -> nth j (ag_indices n W) O = ag_spec n W j /\ (ag_spec n W j < n)%nat.
-Proof.
-  intros n W H. split; [now apply ag_indices_length|].
-  intros j Hj. split; [now apply ag_indices_nth|now apply ag_spec_lt].
-Qed.
+Proof. exact allgather_shape_lem. Qed.
 Print Assumptions allgather_permutation_shape.
 
 (* ---- (3) encodings over Q ---- *)
@@ -185,4 +182,4 @@ Proof. reflexivity. Qed.
 Example nv_allgather_spec : map (ag_spec 7 3) (seq 0 7) = [0; 3; 6; 1; 4; 0; 2]%nat.
 Proof. reflexivity. Qed.
 Example nv_permuted : Permutation [1; 0; 0; 1] (cg_table0 4 2).
-Proof. simpl. apply perm_trans with [0; 1; 0; 1]; [apply perm_swap|]. apply perm_skip. apply perm_swap. Qed.
+Proof. exact permuted_witness. Qed.
